@@ -804,7 +804,7 @@ class Ufuncs:
             if ru[2] != unit[2]:
                 chk.disagree("c01.dispatch", f"{where}: result dimension model {unit[2]} implementation {ru[2]}")
                 return
-            if rule not in ("_multiply_units", "_divide_units"):
+            if rule not in ("_multiply_units", "_divide_units", "_floor_divide_units"):
                 if not (core.close(ru[0], unit[0], 1e-9) and core.close(ru[1], unit[1], 1e-9)):
                     chk.disagree("c01.dispatch", f"{where}: result unit model {unit} implementation {ru}")
                     return
@@ -861,7 +861,7 @@ class Ufuncs:
                                         and gen.dim_vec(self.E.unyt.Unit(a[3][0]).dimensions) == u[4]):
                     # multiply/divide results are compared by dimension only (simplification coefficient)
                     rule = self.registry.get(c["dispatch_ufunc"], "")
-                    if not (rule in ("_multiply_units", "_divide_units") and a[3] is not None
+                    if not (rule in ("_multiply_units", "_divide_units", "_floor_divide_units") and a[3] is not None
                             and gen.dim_vec(self.E.unyt.Unit(a[3][0]).dimensions) == u[4]):
                         chk.disagree("c01.effects", f"{where}: out unit after = {a[3]}, model sets {u[2:]}")
             else:
@@ -1403,7 +1403,7 @@ def crosscheck_tables(chk, E, X, XH):
                   "_divide_units": "divide", "_return_without_unit": "return_without_unit", "_passthrough_unit": "passthrough",
                   "_power_unit": "power", "_sqrt_unit": "sqrt", "_cbrt_unit": "cbrt", "_square_unit": "square",
                   "_reciprocal_unit": "reciprocal", "_arctan2_unit": "arctan2", "_comparison_unit": "comparison",
-                  "_invert_units": "invert", "_bitop_units": "bitop"}
+                  "_invert_units": "invert", "_bitop_units": "bitop", "_floor_divide_units": "floor_divide"}
     for (k, v), rep in zip(reg.items(), reps):
         kn = getattr(k, "__name__", repr(k))
         want = rule_names.get(v.__name__, "other:" + v.__name__)
